@@ -26,6 +26,9 @@ def _launch(prop, shard, out, seed, tier, workdir):
     e["VERIF_TIER"] = tier
     e["NUMBA_CACHE_DIR"] = os.path.join(workdir, "numba")
     e["TMPDIR"] = workdir
+    e.pop("PYTHONOPTIMIZE", None)
+    if shard.get("pyopt"):
+        e["PYTHONOPTIMIZE"] = "1"      # assert statements of the library are stripped (python -O)
     cmd = [env.PYTHON, "-X", "faulthandler", "-m", "vp.worker", prop, json.dumps(shard), out]
     log = open(out + ".log", "w")
     return subprocess.Popen(cmd, cwd=env.VERIF, env=e, stdout=log, stderr=subprocess.STDOUT), log
@@ -178,6 +181,16 @@ def main(argv=None):
             if isinstance(e.get(k), int):
                 e[k] = max(1, e[k] // 3)
         shards.append(e)
+    # one more execution mode of the same source: the interpreter run with -O (assert statements stripped). One random numpy shard
+    # per property is repeated that way (JIT and interpreted kernels alike keep their asserts only when __debug__ is true)
+    base = [s for s in shards if s.get("backend") == "np" and s.get("mode") == "jit" and not s.get("dtypes") and not s.get("forms") and not s.get("no_hooks")]
+    pref = [s for s in base if s.get("fn") in ("rand", "progs", "trees", "sbrg", "circuits", "all", "sstate", "snapshots", "classes", "live")]
+    for s0 in (pref or base)[:2]:
+        d = dict(s0, pyopt=1, name="pyopt." + s0["name"])
+        for k in ("n", "big", "chain"):
+            if isinstance(d.get(k), int):
+                d[k] = max(1, d[k] // 2)
+        shards.append(d)
     if replay_rec:
         shards = [s for s in shards if s["name"] == replay_rec["shard"]]
     if a.only:
